@@ -121,10 +121,11 @@ def job(j):
         lst.sort(key=lambda x: (sum(1 for c in x[0] if c), len(x[0]), x[0]))
         choices, cause = lst[0]
         o2 = run_one(cfg, Ctx(choices), fp=False)
-        if not any(c == clause for c, _ in monitor(cfg, o2)):
-            raise RuntimeError('non-deterministic failure')
         letters = sorted({l for _, _, _, l in o2['sent']} - {'valid'})
         key = f"{clause}/{cfg['transport']}/ka={int(cfg['ka'])}/{'+'.join(letters) or 'no-faults'}"
+        if not any(c == clause for c, _ in monitor(cfg, o2)):
+            key = f"{clause}/{cfg['transport']}/ka={int(cfg['ka'])}/order-dependent"
+            cause = f'{cause}; ' + 'failed during exploration but not on a fresh replay: the outcome depends on earlier executions in the same process (state outside the objects under test leaks between executions)'
         out.append(dict(key=key, clause=clause, n=len(lst), replay=dict(cfg=cfg, choices=choices),
                         detail=dict(cause=cause, **describe(cfg, None, o2))))
     st.violations = out
